@@ -129,6 +129,10 @@ pub fn corpus(tier: Tier) -> Vec<(String, String)> {
         }
     }
     out.push((
+        "hand:consts-literal".into(),
+        "const A: usize = 2usize;\nconst B: usize = A + 1usize;\nconst C: usize = max(A, B) - 1usize;\nconst D: u8 = 3u8;\nconst E: u8 = min(D, 9u8) + D;\nconst F: bool = true;\nconst G: bool = F;\nconst H: i8 = -5i8;\nconst I: i8 = H - 1i8;\npub fn main(x: [u8; C], y: [i8; B]) -> (u8, i8, bool) {\n  let mut s = E;\n  for e in x {\n    s = s ^ e;\n  }\n  (s + D, y[A] + I, G ^ F)\n}\n".into(),
+    ));
+    out.push((
         "hand:consts-join".into(),
         "const N: usize = PARTY_0::N;\nconst M: usize = max(N, 2usize) + 1usize;\nenum E { A, B(u8), C(bool, [u8; 2]) }\nstruct P { x: u8, y: (bool, i16) }\nfn f(p: P, e: E) -> u8 {\n  match (e, p.y) {\n    (E::A, (true, -1i16)) => p.x,\n    (E::B(0u8..=9u8), _) => 1u8,\n    (E::C(b, [a, _]), (_, n)) => if b { a } else { n as u8 },\n    _ => 0u8,\n  }\n}\npub fn main(a: [(u16, u8); N], b: [(u16, u8); 3]) -> [(bool, (u16, u8), (u16, u8)); const { N + 3usize - 1usize }] {\n  /* nested /* comment */ */\n  let mut s = 0u8; // line comment\n  for (x, y) in join_iter(a, b) {\n    s += f(P { x: x.1, y: (true, -1i16) }, E::B(y.1)) >> 1u8;\n  }\n  join(a, b)\n}\n".into(),
     ));
